@@ -440,6 +440,11 @@ impl AssocBoundsGroup {
         other
             .into_iter()
             .map(|(other_trait_bound, other_assoc_bounds)| {
+                if !substitutions.is_expressible(other_trait_bound) {
+                    // NOTE: Bound on a type that can't be named by the impl group
+                    return vec![None];
+                }
+
                 substitutions
                     .substitute(other_trait_bound)
                     .map(|subs_trait_bound| {
